@@ -95,32 +95,32 @@ impl ExclusiveExtractor for WebsocketUpgrade {
         rqctx: &RequestContext<Context>,
         request: hyper::Request<Body>,
     ) -> Result<Self, HttpError> {
-        if !request
-            .headers()
-            .get(header::CONNECTION)
-            .and_then(|hv| hv.to_str().ok())
-            .map(|hv| {
-                hv.split(|c| c == ',' || c == ' ')
-                    .any(|vs| vs.eq_ignore_ascii_case("upgrade"))
+        // Both headers are comma-separated lists of tokens which may be
+        // spread over several header lines, with optional whitespace (SP or
+        // HTAB) around each token.
+        fn has_token(
+            headers: &http::HeaderMap,
+            name: header::HeaderName,
+            token: &str,
+        ) -> bool {
+            headers.get_all(name).iter().any(|hv| {
+                hv.to_str()
+                    .map(|hv| {
+                        hv.split(|c| c == ',' || c == ' ' || c == '\t')
+                            .any(|vs| vs.eq_ignore_ascii_case(token))
+                    })
+                    .unwrap_or(false)
             })
-            .unwrap_or(false)
-        {
+        }
+
+        if !has_token(request.headers(), header::CONNECTION, "upgrade") {
             return Err(HttpError::for_bad_request(
                 None,
                 "expected connection upgrade".to_string(),
             ));
         }
 
-        if !request
-            .headers()
-            .get(header::UPGRADE)
-            .and_then(|v| v.to_str().ok())
-            .map(|v| {
-                v.split(|c| c == ',' || c == ' ')
-                    .any(|v| v.eq_ignore_ascii_case("websocket"))
-            })
-            .unwrap_or(false)
-        {
+        if !has_token(request.headers(), header::UPGRADE, "websocket") {
             return Err(HttpError::for_bad_request(
                 None,
                 "unexpected protocol for upgrade".to_string(),
